@@ -83,6 +83,8 @@ var padChars = []string{"'0'", "' '", `'\x00'`}
 var words = []string{"Order", "Trade", "Quote", "Logon", "Logout", "Heart", "Beat", "Risk", "Ctrl", "Req", "Rsp", "Ack", "Nack", "Exec", "Report", "Cancel", "Replace", "Market", "Data", "Snap", "Incr", "Book", "Level", "Side", "Price", "Qty", "Acct", "User", "Sess", "Seq", "Body", "Head", "Tail", "Ext", "Info", "Detail", "Leg", "Party", "Fee", "Status"}
 
 type gen struct {
+	big        bool
+	inlineUsed []string // inline object names used so far (reused on purpose now and then)
 	r     *Rng
 	used  map[string]bool
 	metas []MetaDecl // all declared metadata, in order
@@ -146,8 +148,12 @@ func (g *gen) basicType() string {
 }
 
 // GenProg generates one program. size is a rough scale (1 = small).
-func GenProg(seed uint64) *Prog {
-	g := &gen{r: NewRng(seed), used: map[string]bool{}}
+func GenProg(seed uint64) *Prog { return GenProgSized(seed, false) }
+
+// GenProgSized: big = a protocol with dozens of packets and many fields, so
+// that single generated files pass size thresholds (64 KiB and more).
+func GenProgSized(seed uint64, big bool) *Prog {
+	g := &gen{r: NewRng(seed), used: map[string]bool{}, big: big}
 	r := g.r
 	p := &Prog{Semicolons: r.Chance(3, 4)}
 	// options
@@ -224,9 +230,20 @@ func GenProg(seed uint64) *Prog {
 	default:
 		npk = 8 + r.Intn(5)
 	}
+	if g.big {
+		npk = 45 + r.Intn(25)
+	}
 	names := make([]string, npk)
 	for i := range names {
 		names[i] = g.ident(1+r.Intn(2), 0)
+		// names that some platform or target language treats specially
+		if i > 0 && r.Chance(1, 12) {
+			n := r.Pick(touchyPacketNames)
+			if !g.used[n] {
+				g.used[n] = true
+				names[i] = n
+			}
+		}
 	}
 	// names colliding after snake/camel conversion
 	if npk >= 3 && r.Chance(1, 4) {
@@ -272,6 +289,13 @@ func GenProg(seed uint64) *Prog {
 	return p
 }
 
+// packet names that are reserved device names on some platforms or collide
+// with words the target languages and their tools give meaning to
+var touchyPacketNames = []string{"Con", "Aux", "Nul", "Prn", "COM1", "Lpt1", "Lib", "Mod", "Main", "Test", "Init", "Type", "Class", "Object", "String", "Error", "Self", "Default", "Package", "Import", "List", "Map", "Vec", "Option", "Result", "Enum"}
+
+// field names that are keywords or builtins in exactly some of the targets
+var touchyFieldNames = []string{"long", "short", "new", "class", "final", "type", "range", "Map", "func", "Int", "double", "default", "package", "import", "interface", "struct", "enum", "self", "super", "this", "None", "lambda", "def", "return", "async", "yield", "namespace", "template", "operator", "delete", "union", "auto", "volatile", "goto", "var", "let", "fn", "impl", "trait", "pub", "mut", "ref", "local", "nil", "end", "then", "elseif", "Long", "Short", "New", "Final", "Range", "Func"}
+
 // realistic protocol field names, including the spellings naming helpers
 // special-case (initialisms, dates, times, sequence numbers)
 var specialFieldNames = []string{"ID", "IP", "URL", "UUID", "API", "ClOrdID", "SecurityID", "OrigClOrdID", "orderID", "userId", "TradeDate", "SettlDate", "expire_date", "MaturityDate", "SendingTime", "TransactTime", "Timestamp", "CreatedAt", "MsgSeqNum", "Version", "Checksum", "Len", "Type", "Name", "Value", "Key", "Count", "Flag", "TCPPort", "HTTPCode", "Reserved", "Padding", "Class", "Self", "Default"}
@@ -279,8 +303,11 @@ var specialFieldNames = []string{"ID", "IP", "URL", "UUID", "API", "ClOrdID", "S
 func (g *gen) fieldName(local map[string]bool) string {
 	for tries := 0; ; tries++ {
 		n := g.r.Pick(words)
-		if tries < 3 && g.r.Chance(1, 6) {
+		if tries < 3 && g.r.Chance(1, 5) {
 			n = g.r.Pick(specialFieldNames)
+			if g.r.Chance(1, 3) {
+				n = g.r.Pick(touchyFieldNames)
+			}
 			if !local[n] && !reserved[n] && !g.used[n] {
 				local[n] = true
 				return n
@@ -312,7 +339,7 @@ func (g *gen) simpleField(local map[string]bool, names []string, idx int, allowI
 	if r.Chance(1, 5) {
 		f.Repeat = true
 	}
-	later := len(names) - idx - 1
+	later := g.laterCount(names, idx)
 	x := r.Intn(100)
 	switch {
 	case x < 30:
@@ -325,7 +352,7 @@ func (g *gen) simpleField(local map[string]bool, names []string, idx int, allowI
 		f.Kind, f.Type = FDyn, r.Pick([]string{"string", "char[]"})
 	case x < 78 && later > 0 && allowInline >= 2: // (references inside inline objects are never resolved by the compiler: generators crash)
 		f.Kind = FObjRef
-		f.Type = names[idx+1+r.Intn(later)]
+		f.Type = g.pickLater(names, idx, later)
 		if r.Chance(1, 3) {
 			f.Name = "" // field named after its type
 		}
@@ -340,6 +367,15 @@ func (g *gen) simpleField(local map[string]bool, names []string, idx int, allowI
 	case x < 95 && allowInline > 0:
 		f.Kind = FInline
 		f.Name = g.ident(1+r.Intn(2), 0)
+		if len(g.inlineUsed) > 0 && r.Chance(1, 4) && !local[g.inlineUsed[0]] {
+			// the same inline object name in another parent (a different object)
+			f.Name = g.inlineUsed[r.Intn(len(g.inlineUsed))]
+			if local[f.Name] {
+				f.Name = g.ident(2, 0)
+			}
+		}
+		local[f.Name] = true
+		g.inlineUsed = append(g.inlineUsed, f.Name)
 		f.Desc = ""
 		n := 1 + r.Intn(3)
 		il := map[string]bool{}
@@ -359,6 +395,9 @@ func (g *gen) genPacket(names []string, idx int) *Pkt {
 	nf := r.Intn(7)
 	if r.Chance(1, 10) {
 		nf = 7 + r.Intn(4)
+	}
+	if g.big {
+		nf = 10 + r.Intn(14)
 	}
 	for i := 0; i < nf; i++ {
 		f := g.simpleField(local, names, idx, 2)
@@ -381,7 +420,7 @@ func (g *gen) genPacket(names []string, idx int) *Pkt {
 		}
 		pk.Fields = append(pk.Fields, f)
 	}
-	later := len(names) - idx - 1
+	later := g.laterCount(names, idx)
 	// match fields: 0..3, over distinct or shared key fields
 	nmatch := 0
 	if later > 0 {
@@ -423,7 +462,7 @@ func (g *gen) genPacket(names []string, idx int) *Pkt {
 		np := 1 + r.Intn(4)
 		usedKeys := map[string]bool{}
 		for i := 0; i < np; i++ {
-			pr := Pair{Value: names[idx+1+r.Intn(later)]}
+			pr := Pair{Value: g.pickLater(names, idx, later)}
 			nk := 1
 			if r.Chance(1, 5) {
 				nk = 2 + r.Intn(6)
@@ -433,6 +472,9 @@ func (g *gen) genPacket(names []string, idx int) *Pkt {
 				for tries := 0; ; tries++ {
 					if key.Kind == FBasic {
 						ks = fmt.Sprint(r.Intn(100 + tries*100))
+						if r.Chance(1, 8) {
+							ks = r.Pick([]string{"0", "00", "0"}) + ks // 01, 007, 010: legal DIGITS
+						}
 					} else if tries < 8 {
 						ks = `"` + r.Pick([]string{"A", "B", "C", "D", "E", "F", "G", "AA", "AB", "x", "y", "35", "D1"}) + `"`
 					} else {
@@ -493,6 +535,30 @@ func (g *gen) genPacket(names []string, idx int) *Pkt {
 		}
 	}
 	return pk
+}
+
+// In big programs only the last dozen packets ("leaves", which reference
+// nothing themselves) can be referenced: the generators expand referenced
+// packets recursively in their self-tests, so deep reference chains would
+// blow the output up exponentially.
+const bigLeaves = 12
+
+func (g *gen) laterCount(names []string, idx int) int {
+	later := len(names) - idx - 1
+	if g.big {
+		if idx >= len(names)-bigLeaves {
+			return 0
+		}
+		return bigLeaves
+	}
+	return later
+}
+
+func (g *gen) pickLater(names []string, idx, later int) string {
+	if g.big {
+		return names[len(names)-bigLeaves+g.r.Intn(bigLeaves)]
+	}
+	return names[idx+1+g.r.Intn(later)]
 }
 
 func (g *gen) metaByName(n string) *MetaDecl {
